@@ -305,6 +305,17 @@ def main(argv=None):
         evidence["coverage"]["harness_errors"] = [h[:1000] for h in harness_errors]
     evdir = os.environ.get("VERIF_EVIDENCE_DIR") or os.path.join(HOME, "evidence")
     os.makedirs(evdir, exist_ok=True)
+    def _finite(x):
+        # strict JSON has no NaN / Infinity: write them as strings in samples
+        if isinstance(x, float) and (x != x or x in (float("inf"), float("-inf"))):
+            return repr(x)
+        if isinstance(x, dict):
+            return {k: _finite(v) for k, v in x.items()}
+        if isinstance(x, (list, tuple)):
+            return [_finite(v) for v in x]
+        return x
+
+    evidence = _finite(evidence)
     with open(os.path.join(evdir, f"{prop}.json"), "w") as fh:
         json.dump(evidence, fh, indent=1, sort_keys=False, allow_nan=False, default=str)
         fh.write("\n")
